@@ -216,9 +216,22 @@ pub async fn run(seed: u64, profile_name: &str, out: Option<Out>) -> Vec<Value> 
         }));
     }
 
+    // A prober that records the instants at which the whole server is at rest.
+    let prober = {
+        let world = Arc::clone(&world);
+        let mut rng = StdRng::seed_from_u64(seed.wrapping_mul(31).wrapping_add(7));
+        tokio::spawn(async move {
+            for _ in 0..12 {
+                tokio::time::sleep(Duration::from_millis(rng.gen_range(1..2500))).await;
+                crate::replay::quiet(&world).await;
+            }
+        })
+    };
     for h in handles {
         let _ = h.await;
     }
+    prober.abort();
+    let _ = prober.await;
     for h in stream_tasks {
         let _ = h.await;
     }
